@@ -104,3 +104,7 @@ package raftpb
 //@ func MustMarshalTo [C10 C13]
 //@ trusted wraps the generated MarshalTo of a message; panics on error
 //@ modifies elems(result)
+
+// the sink of a streamed snapshot: its identification getters have no effect
+//@ iface (s IChunkSink) ShardID
+//@ iface (s IChunkSink) ToReplicaID
